@@ -256,6 +256,15 @@ engine_a("C44",
     level_text="Seeded search over join/query histories: every A/AAAA answer must carry an address of that family taken from a certificate with that name (case-insensitive) whose handshake completed at the lighthouse (or its own), names that never passed verification are never answered, NXDOMAIN is returned only when no queried name is known, certificate details (TXT) go only to loopback or own-overlay clients and must be the certificate of the peer holding the queried address. The responder's socket is stubbed (handler called directly). Evidence, not proof.",
 )
 
+engine_a("C01",
+    engine="C-component",
+    scenarios=["C01.trust"],
+    technique="deterministic simulation of a node whose clock is stepped across the validity boundaries of generated CAs and leaves and whose trust bundle/blocklist change by real reloads; pool verdicts, real first-handshake acceptance and cached re-checks compared with an independent reference of the trust rule at every step",
+    rule="one run = 1-3 test CAs (v1/v2, Curve25519 or P-256, unconstrained or constrained in groups/networks/unsafe networks, long-lived / expiring / not yet valid / short window) and 2-8 leaves inside or outside each constraint and window (violating leaves carry a genuine CA signature, produced through the public signing API with a signer wrapper that hides the constraints), broken and P-256 twin signatures, then 20-44 steps drawn from: clock advance to the next validity boundary (-1 s, 0, +1 s) or a little, reload toggling a CA in the bundle / blocklisting a fingerprint or a twin fingerprint / clearing the blocklist, a full comparison over all leaves, a real first handshake message from a leaf; distinct = distinct abstract trace hash; non-trivial = the reference both accepted and rejected during the run",
+    level_text="Seeded search over (time, trust state) histories: VerifyCertificate on the node's live pool must equal the reference rule (blocklist incl. twin fingerprint, trusted issuer, same curve, issuer and leaf valid now, signature, leaf inside the issuer's window, groups, networks, unsafe networks) for every leaf at every comparison; a real first handshake message installs a tunnel iff the reference accepts at that instant; VerifyCachedCertificate must give the verdict of a full check for every certificate accepted earlier and every tunnel held. The full cross product of field values is only sampled as per-run configurations; no per-node clock skew. Evidence, not proof.",
+    quick=tier(3000, 35),
+)
+
 NOT_APPLICABLE = {
     "C03": "pure encode/decode round trip over input bytes; no clock, schedule, fault or second party for a simulator to control",
     "C04": "pure function of (certificate to sign, signer); offline CLI; nothing to schedule or fault",
